@@ -457,6 +457,10 @@ func specLkAfter(kind, lk int) int {
 // the (padded) magic; the metadata text is what lies between that word and the end
 // of the header, up to its first NUL, split into lines at newlines and into key and
 // value at the first ": ".
+// Reader/writer agreement on the header length: the header test rejects a file
+// only if its length word is beyond the first page or before the end of the length
+// word itself -- every header mappedHeader can produce (up to a page) is accepted.
+//@   at call corrupt#1: assert hdrLen > pageSize || int(hdrLen) < np+4
 //@   at call IndexByte#1: assert np == 28 && wide(hdrLen) == wide(le32(data, np)) && issub(arg0, data, np+4, int(hdrLen)) && arg1 == 0
 //@   at call Split#1: assert arg0 == string(meta) && arg1 == "\n"
 //@   at call Cut#1: assert arg0 == line && arg1 == ": "
